@@ -95,6 +95,9 @@ func options(c *sess.Cfg) []simpledb.ExtraOption {
 	if c.Async {
 		o = append(o, simpledb.EnableAsyncWAL())
 	}
+	if c.Direct {
+		o = append(o, simpledb.EnableDirectIOWAL())
+	}
 	return o
 }
 
